@@ -159,7 +159,7 @@ func (env *Env) eval(e Expr) *SV {
 		switch u := x.T.Underlying().(type) {
 		case *types.Slice:
 			es := size(u.Elem())
-			return vc.loadPure(env.st, &SV{C: []string{x.C[0], app("bvadd", x.C[1], scale(i, es))}}, u.Elem())
+			return vc.loadPure(env.st, &SV{C: []string{x.C[0], app("bvadd", x.C[1], vc.scaleReg(i, es))}}, u.Elem())
 		case *types.Basic:
 			if u.Info()&types.IsString != 0 {
 				return &SV{T: types.Typ[types.Uint8], C: []string{sel2(env.st.H["H8"], x.C[0], app("bvadd", x.C[1], i))}}
@@ -167,7 +167,7 @@ func (env *Env) eval(e Expr) *SV {
 		case *types.Pointer:
 			if arr, ok := u.Elem().Underlying().(*types.Array); ok {
 				es := size(arr.Elem())
-				return vc.loadPure(env.st, &SV{C: []string{x.C[0], app("bvadd", x.C[1], scale(i, es))}}, arr.Elem())
+				return vc.loadPure(env.st, &SV{C: []string{x.C[0], app("bvadd", x.C[1], vc.scaleReg(i, es))}}, arr.Elem())
 			}
 		case *types.Array:
 			es := size(u.Elem())
@@ -742,7 +742,8 @@ func (env *Env) evalCall(e CallE) *SV {
 	case "fresh":
 		// the object was allocated after the old state
 		need(1)
-		return ghostBool(app("bvuge", arg(0).C[0], env.old.H["next"]))
+		r := arg(0).C[0]
+		return ghostBool(and(app("bvuge", r, env.old.H["next"]), app("bvult", r, env.st.H["next"])))
 	case "bytes20", "bytes16", "bytes8", "bytes4":
 		// the first N bytes of a byte slice as one big-endian bit-vector
 		need(1)
@@ -776,6 +777,11 @@ func (env *Env) evalCall(e CallE) *SV {
 			}
 		}
 		return &SV{Sort: SBV128, C: []string{app("concat", parts...)}}
+	case "bitslen":
+		// bitslen(x): math/bits.Len of the 64-bit value x, written independently of the model used
+		// for the library function: the least k in 0..64 with x < 2^k
+		need(1)
+		return ghostBV(64, true, vc.bitsLen(env.toBV64(arg(0))))
 	case "hi8":
 		need(1)
 		x := arg(0)
@@ -805,13 +811,7 @@ func (env *Env) evalCall(e CallE) *SV {
 		if m.T == nil || !sh.ok {
 			env.fail("has(m, k): unsupported map")
 		}
-		k := arg(1)
-		kt := ""
-		if k.Untyped != nil {
-			kt = bvLitBig(sh.kbits, k.Untyped)
-		} else {
-			kt = resize(k.term(), k.sort().Bits(), sh.kbits, k.signed())
-		}
+		kt := env.mapKeyExpr(sh, e.Args[1])
 		p, _ := mapGet(env.st, sh, m.C[0], kt)
 		return ghostBool(p)
 	case "flat":
@@ -1350,14 +1350,14 @@ func (env *Env) evalAddr(e Expr) (addr *SV, t types.Type, ok bool) {
 		if a, at, ok := env.evalAddr(x.X); ok {
 			switch u := at.Underlying().(type) {
 			case *types.Array:
-				return &SV{C: []string{a.C[0], bvAdd(a.C[1], scale(i, size(u.Elem())))}}, u.Elem(), true
+				return &SV{C: []string{a.C[0], bvAdd(a.C[1], env.vc.scaleReg(i, size(u.Elem())))}}, u.Elem(), true
 			case *types.Slice:
 				sl := env.vc.loadPure(env.st, a, at)
-				return &SV{C: []string{sl.C[0], bvAdd(sl.C[1], scale(i, size(u.Elem())))}}, u.Elem(), true
+				return &SV{C: []string{sl.C[0], bvAdd(sl.C[1], env.vc.scaleReg(i, size(u.Elem())))}}, u.Elem(), true
 			case *types.Pointer:
 				if arr, isArr := u.Elem().Underlying().(*types.Array); isArr {
 					pv := env.vc.loadPure(env.st, a, at)
-					return &SV{C: []string{pv.C[0], bvAdd(pv.C[1], scale(i, size(arr.Elem())))}}, arr.Elem(), true
+					return &SV{C: []string{pv.C[0], bvAdd(pv.C[1], env.vc.scaleReg(i, size(arr.Elem())))}}, arr.Elem(), true
 				}
 			}
 			return nil, nil, false
@@ -1368,10 +1368,10 @@ func (env *Env) evalAddr(e Expr) (addr *SV, t types.Type, ok bool) {
 		}
 		switch u := xv.T.Underlying().(type) {
 		case *types.Slice:
-			return &SV{C: []string{xv.C[0], bvAdd(xv.C[1], scale(i, size(u.Elem())))}}, u.Elem(), true
+			return &SV{C: []string{xv.C[0], bvAdd(xv.C[1], env.vc.scaleReg(i, size(u.Elem())))}}, u.Elem(), true
 		case *types.Pointer:
 			if arr, isArr := u.Elem().Underlying().(*types.Array); isArr {
-				return &SV{C: []string{xv.C[0], bvAdd(xv.C[1], scale(i, size(arr.Elem())))}}, arr.Elem(), true
+				return &SV{C: []string{xv.C[0], bvAdd(xv.C[1], env.vc.scaleReg(i, size(arr.Elem())))}}, arr.Elem(), true
 			}
 		}
 	}
@@ -1412,16 +1412,38 @@ func (env *Env) tryMapIndex(e IndexE) (*SV, bool) {
 	if !sh.ok {
 		env.fail("map %s has an unsupported shape for specifications", exprString(e.X))
 	}
-	k := env.eval(e.I)
-	kt := bvLitBig(sh.kbits, big.NewInt(0))
-	if k.Untyped != nil {
-		kt = bvLitBig(sh.kbits, k.Untyped)
-	} else {
-		kt = resize(k.term(), k.sort().Bits(), sh.kbits, k.signed())
-	}
-	_, v := mapGet(env.st, sh, mv.C[0], kt)
+	kt := env.mapKeyExpr(sh, e.I)
+	_, vs := mapGetAll(env.st, sh, mv.C[0], kt)
 	mt := mv.T.Underlying().(*types.Map)
-	return &SV{T: mt.Elem(), C: []string{v}}, true
+	if len(env.vc.bound) == 0 {
+		for i, s := range layout(mt.Elem()) {
+			if s == SRef {
+				env.vc.assume(app("bvult", vs[i], env.st.H["next"]))
+			}
+		}
+	}
+	return &SV{T: mt.Elem(), C: vs}, true
+}
+
+// mapKeyExpr: the key term of a specification-level map index (string-keyed maps take a string literal).
+func (env *Env) mapKeyExpr(sh mapShape, ke Expr) string {
+	if sh.kstr {
+		lit, ok := ke.(StrLit)
+		if !ok {
+			env.fail("string-keyed map: the key must be a string literal, got %s", exprString(ke))
+		}
+		if lit.S == "" {
+			return bvLit(64, 0)
+		}
+		id := env.vc.eng.globalID("str:" + lit.S)
+		strKeyIDs[id] = true
+		return bvLit(64, int64(id))
+	}
+	k := env.eval(ke)
+	if k.Untyped != nil {
+		return bvLitBig(sh.kbits, k.Untyped)
+	}
+	return resize(k.term(), k.sort().Bits(), sh.kbits, k.signed())
 }
 
 // termBits: bit width of a literal or a declared/defined name (0 if unknown).
